@@ -543,9 +543,12 @@ pub fn run(ctx: &Ctx) {
             let mut c = Cmd::new(&dir, &args).pass(&b.password);
             c.timeout = std::time::Duration::from_secs(60);
             let o = c.run();
-            if o.exit == Exit::Timeout {
-                // unblock the reader if the tool never opened the FIFO
-                let _ = std::fs::OpenOptions::new().write(true).open(&fifo);
+            {
+                // unblock the reader if the tool never opened the FIFO (it refused early, or timed out): a
+                // non-blocking writer open succeeds while the reader waits in open() and fails with ENXIO once
+                // the reader has finished, so it can never block the monitor itself
+                use std::os::unix::fs::OpenOptionsExt;
+                let _ = std::fs::OpenOptions::new().write(true).custom_flags(libc::O_NONBLOCK).open(&fifo);
             }
             let got = reader.join().unwrap_or_default();
             ctx.eval();
@@ -574,6 +577,48 @@ pub fn run(ctx: &Ctx) {
             ctx.seen("explicit -k with a stale KESTREL_KEYRING: same outcome as -k alone");
             ctx.distinct("both-k-and-env");
         }
+    }
+    // files whose NAMES are words of the command language (commands, aliases, sub-commands, option-like
+    // words): FILE / -o / -k positions must take them literally; every such file exists with its own content
+    {
+        let dir = w.wd.path.join("words");
+        let _ = std::fs::create_dir_all(&dir);
+        let words = ["enc", "dec", "pass", "gen", "encrypt", "decrypt", "password", "key", "generate", "change-pass", "extract-pub", "help", "version", "to", "from", "output", "keyring", "env-pass", "stdin", "stdout"];
+        std::fs::write(dir.join("kr.txt"), &kr_ab).unwrap();
+        // plaintext files and ciphertext files under every word (ciphertexts in a sub-directory of their own)
+        let _ = std::fs::create_dir_all(dir.join("ct"));
+        std::fs::write(dir.join("ct/kr.txt"), &kr_ab).unwrap();
+        let content = |wd: &str| format!("content of the file named {}", wd).into_bytes();
+        for wd in words {
+            std::fs::write(dir.join(wd), content(wd)).unwrap();
+            let f = refspec::encode_key_file(&a.sk, &a.pk, &b.pk, &rng.arr32(), &rng.arr32(), &content(wd), &[content(wd).len()]).unwrap();
+            std::fs::write(dir.join("ct").join(wd), f).unwrap();
+        }
+        let jobs: Vec<(usize, usize)> = (0..words.len()).flat_map(|i| (0..4).map(move |k| (i, k))).collect();
+        let dirp = &dir;
+        crate::util::par_for(jobs.len(), crate::util::ncpu(), |j| {
+            let (i, k) = jobs[j];
+            let wd = words[i];
+            let out = format!("out-{}-{}", i, k);
+            let (cwd, args, pw, decrypting): (std::path::PathBuf, Vec<&str>, &str, bool) = match k {
+                0 => (dirp.clone(), vec!["encrypt", wd, "-t", &b.name, "-f", &a.name, "-k", "kr.txt", "-o", &out, "--env-pass"], &a.password, false),
+                1 => (dirp.clone(), vec!["enc", wd, "--to", &b.name, "--from", &a.name, "--keyring", "kr.txt", "--output", &out, "--env-pass"], &a.password, false),
+                2 => (dirp.join("ct"), vec!["decrypt", wd, "-t", &b.name, "-k", "kr.txt", "-o", &out, "--env-pass"], &b.password, true),
+                _ => (dirp.join("ct"), vec!["dec", wd, "--to", &b.name, "--keyring", "kr.txt", "--output", &out, "--env-pass"], &b.password, true),
+            };
+            let o = Cmd::new(&cwd, &args).pass(pw).run();
+            ctx.eval();
+            let got = std::fs::read(cwd.join(&out)).unwrap_or_default();
+            let right = if decrypting { got == content(wd) } else { matches!(refspec::decode_key_file(&got, &b.sk, &b.pk), Ok(d) if d.body.complete() && d.body.plaintext() == content(wd)) };
+            if o.exit == Exit::Timeout {
+                ctx.inconclusive("C12: timeout");
+            } else if o.exit == Exit::Code(0) && right {
+                ctx.seen("input file named like a word of the command language is taken literally");
+                ctx.distinct(&format!("word|{}|{}", wd, k));
+            } else {
+                ctx.violation("C12:outcome-depends-on-wiring:input-file-named-like-a-command-word", json!({"argv": args, "exit": o.exit.describe(), "stderr": o.stderr_s(), "output_is_the_result_for_that_file": right, "output_len": got.len()}));
+            }
+        });
     }
     // sinks that accept only part of the output (file size limit, SIGXFSZ ignored: a real short write
     // followed by EFBIG): exit 0 only if the whole output arrived, whichever way the output is wired
@@ -699,6 +744,7 @@ pub fn run(ctx: &Ctx) {
             ctx.violation("C12:help-or-version-fails", json!({"argv": name, "exit": o.exit.describe()}));
         }
     }
+    ctx.require("input file named like a word of the command language", 60);
     ctx.require("decrypt -> exit 0", 20);
     ctx.require("decrypt -> exit 1", 20);
     ctx.require("encrypt -> exit 0", 10);
